@@ -14,9 +14,22 @@ def openMachine (args : List String) (hin hout : IO.FS.Stream) : Option (IO Bool
   | "dec" :: m :: full :: rest => (parseCfg ("1" :: m :: full :: rest)).map fun c =>
       serve (numBus 1 c.m (DecFabric.full c)) hin hout
   | ["p2p"] => some (serve (numBus 1 1 P2P.full) hin hout)
+  | "localmon" :: "shared" :: rest => (parseCfg rest).map fun c =>
+      serve (locMachine c (Shared.machine c false) (Shared.machine c true)) hin hout
+  | "localmon" :: "xbar" :: rest => (parseCfg rest).map fun c =>
+      serve (locMachine c (Crossbar.machine c false) (Crossbar.machine c true)) hin hout
+  | "socaxi" :: rest => (parseSocAxi rest).bind fun c =>
+      match c.fabric with
+      | .none => none
+      | .p2p => some (serve (numBus 1 1 P2P.full) hin hout)
+      | .shared k => some (serve (numBus k.n k.m (Shared.full k)) hin hout)
+      | .sharedT k => some (serve (numBus k.n k.m (SharedT.full k)) hin hout)
+      | .xbar k => some (serve (numBus k.n k.m (Crossbar.full k)) hin hout)
   | _ => none
 
-/-- `call ctrnext <c> <request> <response>` -> next counter value;
+/-- `call socfabric <socaxi args>` -> none|p2p|shared|sharedt|xbar (`SocAxi.fabric`);
+    `call checkparams <w_0> <w_1> …` -> ok <w> | rej (`get_check_parameters`);
+    `call ctrnext <c> <request> <response>` -> next counter value;
     `call rrnext <n> <grant> <ce> <req bits as number>` -> next grant (SP_CE). -/
 def call (args : List String) : Option String :=
   match args with
@@ -24,6 +37,12 @@ def call (args : List String) : Option String :=
     match rest.mapM (·.toNat?) with
     | some [c, rq, rs] => some (toString (ctrNext c (n2b rq) (n2b rs)))
     | _ => none
+  | "socfabric" :: rest => (parseSocAxi rest).map (·.fabricName)
+  | "checkparams" :: rest =>
+    (rest.mapM String.toNat?).map fun ws =>
+      match checkParameters ws with
+      | some w => s!"ok {w}"
+      | none => "rej"
   | "rrnext" :: rest =>
     match rest.mapM (·.toNat?) with
     | some [n, g, ce, r] => some (toString (RoundRobin.next .ce n g (fun i => r.testBit i) (n2b ce)))
